@@ -469,6 +469,92 @@ fn run_export_case(w: &mut W, rng: &mut Rng, version: u16, n: usize) {
     }
 }
 
+/// Every V5/V7 element returned for *any* buffer (truncated at and around record boundaries,
+/// hostile, mutated, corpus) must re-export to exactly the bytes it occupied: the slice that starts
+/// where the preceding elements end and has the length its own header implies. An element whose
+/// header implies more bytes than the buffer holds did not occupy them (that it was accepted at
+/// all is C03/C14's business; what C08 decides is that its re-export cannot be the input).
+fn run_accepted_case(w: &mut W, rng: &mut Rng) {
+    let mut sut;
+    let ops: Vec<(usize, Vec<u8>)>;
+    if rng.chance(1, 2) {
+        // a V5/V7 packet cut on / next to a record boundary or anywhere, alone or after a packet
+        let version = if rng.chance(1, 2) { 5 } else { 7 };
+        let n = 1 + rng.usize(6);
+        let rl = if version == 5 { 48 } else { 52 };
+        let wire = gen_case(rng, version, n).wire();
+        let k = rng.usize(n + 1);
+        let cut = match rng.below(4) {
+            0 => 24 + rl * k,
+            1 => (24 + rl * k + 1).min(wire.len()),
+            2 => (24 + rl * k).saturating_sub(1).max(1),
+            _ => 1 + rng.usize(wire.len()),
+        };
+        let mut buf = if rng.chance(1, 3) {
+            let v = if rng.chance(1, 2) { 5 } else { 7 };
+            let k = rng.usize(3);
+            fixed_pkt(rng, v, k).wire()
+        } else {
+            vec![]
+        };
+        buf.extend_from_slice(&wire[..cut.min(wire.len())]);
+        sut = Sut::new(1);
+        ops = vec![(0, buf)];
+        w.rep.count("accepted_family.cut_buffers", 1);
+    } else {
+        let h = super::common::hostile_history(rng, &w.pools, &w.corpus);
+        sut = Sut::new(0);
+        sut.parsers = super::common::make_parsers(&h);
+        ops = h.ops;
+        w.rep.count("accepted_family.hostile_histories", 1);
+    }
+    for (p, buf) in &ops {
+        let res = match std::panic::catch_unwind(std::panic::AssertUnwindSafe(|| sut.parse(*p, buf))) {
+            Ok(r) => r,
+            Err(_) => {
+                crate::util::take_panic();
+                w.rep.panics_foreign += 1;
+                return;
+            }
+        };
+        let mut off = 0usize;
+        for e in &res {
+            let len = match crate::observe::wire_len(e) {
+                Some(l) => l,
+                None => break,
+            };
+            if let NetflowPacket::V5(_) | NetflowPacket::V7(_) = e {
+                let version = if matches!(e, NetflowPacket::V5(_)) { 5 } else { 7 };
+                w.rep.count("accepted_family.fixed_elements", 1);
+                let d = if off + len > buf.len() {
+                    Some(div(&format!("v{}/accepted/export", version), "beyond-buffer", format!("element at offset {} announces {} bytes but the buffer has {}: its re-export cannot equal bytes it occupied", off, len, buf.len())))
+                } else {
+                    match check_export(&buf[off..], e) {
+                        Ok(_) => {
+                            w.rep.count("exports", 1);
+                            w.rep.count("bytes_compared", len as u64);
+                            None
+                        }
+                        Err(mut d) => {
+                            d.unit = d.unit.replace("/export/", "/accepted/export/");
+                            Some(d)
+                        }
+                    }
+                };
+                if let Some(d) = d {
+                    w.rep.violation(sig("C08", &d), &d, sut.replay_json());
+                    return;
+                }
+            }
+            off += len;
+            if off > buf.len() {
+                break; // accounting is C02's domain
+            }
+        }
+    }
+    w.rep.shape(&format!("accepted ops={}", ops.len()));
+}
+
 pub fn run_c08(w: &mut W) {
     let mut j = 0u64;
     for version in [5u16, 7] {
@@ -489,6 +575,10 @@ pub fn run_c08(w: &mut W) {
     w.rep.extra.insert("exhaustive_subspaces".into(), json!({"record_counts": if w.thorough { "all 0..=1364 (V5), 0..=1259 (V7)" } else { "0..=48, every 53rd, max" }}));
     for idx in w.indices() {
         let mut rng = w.begin_case(idx, "random");
+        if idx % 3 == 2 {
+            run_accepted_case(w, &mut rng);
+            continue;
+        }
         let version = if rng.chance(1, 2) { 5 } else { 7 };
         let n = match rng.below(10) {
             0 => 0,
